@@ -244,3 +244,118 @@ Qed.
 Example pd_empty_values_refuted :
   exists p j, pd_wf p = true /\ p2j PDetailed p = Ok j /\ j2p cur_cfg PDetailed j <> Ok p.
 Proof. exists (PMap [(PInt 1, [])]). eexists. split; [reflexivity|]. split; [reflexivity|]. vm_compute. discriminate. Qed.
+
+(* ===== the detailed conversion is defined exactly on the schema's language; outside it the result is Err ===== *)
+Section PDomain.
+  Variable c : cfg.
+  Hypothesis Hlen : c_entry_lenient c = false.
+
+  Lemma j2p_det_single k v : j2p c PDetailed (JObj [(k, v)]) =
+    if bytes_eqb k k_int then match v with JInt _ | JNegZero | JFloat _ => p_encode_number v | _ => Err end
+    else if bytes_eqb k k_bytes then match v with JStr s => p_encode_string s PDetailed false | _ => Err end
+    else if bytes_eqb k k_list then
+      match v with JArr l => let* xs := mapM (j2p c PDetailed) l in Ok (PList xs) | _ => Err end
+    else if bytes_eqb k k_map then
+      match v with JArr es => let* kvs := mapM (pentry_dec c) es in Ok (PMap (pmap_of_list kvs)) | _ => Err end
+    else Err.
+  Proof. reflexivity. Qed.
+
+  Lemma j2p_det_pair k1 v1 k2 v2 : j2p c PDetailed (JObj [(k1, v1); (k2, v2)]) =
+    let l := [(k1, v1); (k2, v2)] in
+    match obj_get k_constructor l with
+    | Some a =>
+        match as_u64 a with
+        | Some alt =>
+            if has_key k_fields l then
+              on_key k_fields (fun f => match f with
+                                        | JArr fs => let* xs := mapM (j2p c PDetailed) fs in Ok (PConstr alt xs)
+                                        | _ => Err
+                                        end) Err l
+            else Err
+        | None => Err
+        end
+    | None => Err
+    end.
+  Proof. reflexivity. Qed.
+
+  Lemma pentry_dec_domain e :
+    json_wf e = true ->
+    (forall x, (jsize x < jsize e)%nat -> json_wf x = true -> res_dom (j2p c PDetailed x) (pdom_detailed x)) ->
+    res_dom (pentry_dec c e) (entry_okb pdom_detailed e).
+  Proof.
+    intros Hwf IH. destruct e as [| | | | | | |l2]; try reflexivity.
+    unfold pentry_dec, p_entry_shape_ok. rewrite Hlen. cbn [orb].
+    destruct l2 as [|[a x] [|[b y] [|p r]]].
+    - reflexivity.
+    - cbn [List.length Nat.eqb]. rewrite !andb_false_r. reflexivity.
+    - cbn [json_wf keys_ascending obj_all] in Hwf. rewrite !andb_true_iff in Hwf. destruct Hwf as [[Hlt _] [[_ Wx] [[_ Wy] _]]].
+      unfold has_key. cbn [obj_get List.length Nat.eqb entry_okb]. rewrite andb_true_r.
+      destruct (bytes_eqb a k_k) eqn:Ea; destruct (bytes_eqb b k_v) eqn:Eb.
+      + apply bytes_eqb_eq in Ea, Eb. subst a b. change (bytes_eqb k_k k_v) with false. cbn [andb].
+        pose proof (jsize_obj_in k_k x [(k_k, x); (k_v, y)] (or_introl eq_refl)) as S1.
+        pose proof (jsize_obj_in k_v y [(k_k, x); (k_v, y)] (or_intror (or_introl eq_refl))) as S2.
+        cbn [on_key]. rewrite bytes_eqb_refl. change (bytes_eqb k_k k_v) with false. rewrite bytes_eqb_refl.
+        apply res_dom_pair; apply IH; assumption.
+      + apply bytes_eqb_eq in Ea. subst a. change (bytes_eqb k_k k_v) with false. rewrite andb_false_r. reflexivity.
+      + apply bytes_eqb_eq in Eb. subst b. change (bytes_eqb k_v k_k) with false. cbn [andb]. reflexivity.
+      + cbn [andb]. destruct (bytes_eqb b k_k) eqn:Eb2; [|reflexivity].
+        destruct (bytes_eqb a k_v) eqn:Ea2; [|reflexivity].
+        apply bytes_eqb_eq in Eb2, Ea2. subst a b. vm_compute in Hlt. discriminate.
+    - cbn [List.length Nat.eqb]. rewrite !andb_false_r. reflexivity.
+  Qed.
+
+  Lemma p_encode_number_dom v :
+    res_dom (match v with JInt _ | JNegZero | JFloat _ => p_encode_number v | _ => Err end)
+            (match v with JInt _ | JNegZero => true | JFloat lit => is_some (parse_bigint lit) | _ => false end).
+  Proof. destruct v; try reflexivity; cbn [p_encode_number res_dom]; eauto. destruct (parse_bigint lit); cbn; eauto. Qed.
+
+  Theorem j2p_detailed_domain_sized n : forall j, (jsize j < n)%nat -> json_wf j = true ->
+    res_dom (j2p c PDetailed j) (pdom_detailed j).
+  Proof.
+    induction n as [|n IHn]; intros j Hn Hwf; [lia|].
+    destruct j as [| | | | | | |l]; try reflexivity.
+    destruct l as [|[k v] [|[k2 v2] [|]]]; try reflexivity.
+    - rewrite j2p_det_single. cbn [pdom_detailed].
+      cbn [json_wf keys_ascending obj_all] in Hwf. rewrite !andb_true_iff in Hwf. destruct Hwf as [_ [[_ Wv] _]].
+      pose proof (jsize_obj_in k v [(k, v)] (or_introl eq_refl)) as Sv.
+      destruct (bytes_eqb k k_int); [apply p_encode_number_dom|].
+      destruct (bytes_eqb k k_bytes).
+      { destruct v; try reflexivity. unfold p_encode_string. destruct (starts_with k_0x s); [reflexivity|].
+        cbn [negb andb]. destruct (unhex s); cbn; eauto. }
+      destruct (bytes_eqb k k_list).
+      { destruct v as [| | | | | |l|]; try reflexivity. apply res_dom_bind. apply res_dom_mapM.
+        cbn [json_wf] in Wv. rewrite forallb_forall in Wv. apply Forall_forall. intros x Hx.
+        apply IHn; [pose proof (jsize_arr_in x l Hx); lia|now apply Wv]. }
+      destruct (bytes_eqb k k_map); [|reflexivity].
+      destruct v as [| | | | | |es|]; try reflexivity. apply res_dom_bind. rewrite entries_all_forallb. apply res_dom_mapM.
+      cbn [json_wf] in Wv. rewrite forallb_forall in Wv. apply Forall_forall. intros e He.
+      apply pentry_dec_domain; [now apply Wv|]. intros x Hx Wx. apply IHn; [pose proof (jsize_arr_in e es He); lia|exact Wx].
+    - rewrite j2p_det_pair. cbn [pdom_detailed].
+      cbn [json_wf keys_ascending obj_all] in Hwf. rewrite !andb_true_iff in Hwf. destruct Hwf as [[Hlt _] [[_ W1] [[_ W2] _]]].
+      pose proof (jsize_obj_in k2 v2 [(k, v); (k2, v2)] (or_intror (or_introl eq_refl))) as S2.
+      cbv zeta. unfold has_key. cbn [obj_get on_key].
+      destruct (bytes_eqb k k_constructor) eqn:E1.
+      + apply bytes_eqb_eq in E1. subst k. change (bytes_eqb k_constructor k_fields) with false. cbn [andb].
+        destruct (as_u64 v) as [alt|]; [|cbn [is_some andb]; rewrite andb_false_r; reflexivity]. cbn [is_some andb]. rewrite andb_true_r.
+        destruct (bytes_eqb k2 k_fields) eqn:E2; [|reflexivity]. cbn [andb].
+        destruct v2 as [| | | | | |fs|]; try reflexivity. apply res_dom_bind. apply res_dom_mapM.
+        cbn [json_wf] in W2. rewrite forallb_forall in W2. apply Forall_forall. intros x Hx.
+        apply IHn; [pose proof (jsize_arr_in x fs Hx); lia|now apply W2].
+      + cbn [andb]. destruct (bytes_eqb k2 k_constructor) eqn:E2; [|reflexivity].
+        apply bytes_eqb_eq in E2. subst k2. destruct (as_u64 v2); [|reflexivity].
+        destruct (bytes_eqb k k_fields) eqn:E3.
+        * apply bytes_eqb_eq in E3. subst k. vm_compute in Hlt. discriminate.
+        * change (bytes_eqb k_constructor k_fields) with false. reflexivity.
+  Qed.
+
+  Theorem j2p_detailed_out_of_schema_is_error j :
+    json_wf j = true -> pdom_detailed j = false -> j2p c PDetailed j = Err.
+  Proof.
+    intros Hwf H. pose proof (j2p_detailed_domain_sized (S (jsize j)) j (le_n _) Hwf) as D. now rewrite H in D.
+  Qed.
+  Theorem j2p_detailed_in_schema_converts j :
+    json_wf j = true -> pdom_detailed j = true -> exists p, j2p c PDetailed j = Ok p.
+  Proof.
+    intros Hwf H. pose proof (j2p_detailed_domain_sized (S (jsize j)) j (le_n _) Hwf) as D. now rewrite H in D.
+  Qed.
+End PDomain.
